@@ -18,7 +18,7 @@
      inside its chunk) and the storage / code inclusion target <= store at completion (the inclusion store <= target IS proved:
      C47_stored_subset_target_partial); bal_catchup_exact (the access-list catch-up lives in the
      separate snap/2 syncer, syncv2.go / bal_apply.go, which is not modelled). *)
-From GV Require Import Lib.Tactics Net.SnapSync Net.SnapSyncProofs Net.SnapSyncRanges Net.SnapSyncChunks.
+From GV Require Import Lib.Tactics Net.SnapSync Net.SnapSyncProofs Net.SnapSyncRanges Net.SnapSyncChunks Net.SnapSyncComplete.
 Local Open Scope N_scope.
 
 (* ---- only_verified_stored: whatever the local flat state holds after ANY event list was an item
@@ -199,4 +199,79 @@ Example C47_nonvacuous_sound :
 Proof.
   split; [exact ex_tg_fun|]. split; [exact ex_tg_bound|]. split; [exact ex_cfg_ok|].
   split; [exact ex_trace_sound|]. vm_compute. reflexivity.
+Qed.
+
+
+(* ================= storage and code at completion (Net/SnapSyncComplete.v) ================= *)
+
+(* ---- complete_implies_equal, inclusion target <= store for ACCOUNTS, CODE and STORAGE, over all histories
+   (restarts included).  [ST h] is the target storage of the account with hash h (functional, inside the
+   hash space, empty when the account's storage root is the empty root).  Hypotheses on the recorded
+   verdicts: [trace_sound] (accepted account ranges, as above) and [sto_trace]: every ACCEPTED storage
+   response satisfies [sto_sound] against the request it answers - each set carries only target slots of
+   its account; from the origin (0, or the Next of the addressed chunk) no target slot up to the last
+   delivered key is missing; every set but the last, and the last one when more = false, is complete from
+   the origin; a chunk request names one account.  (Keys below the origin are allowed: the real code
+   accepts the whole trie without proof for a chunk request.)  Then, when no account task is left, every
+   target account is in the flat state with its body, its code (if any) is stored, and every target slot
+   of it is stored with its target value.  Invariant behind it ([ADB], all histories): an account body is
+   written to the flat state only after its code and its whole storage are stored. *)
+Theorem C47_complete_implies_equal : forall (tg : list (N * acct)),
+  (forall k a a', In (k, a) tg -> In (k, a') tg -> a = a') ->
+  forall ST : N -> list (N * bytes),
+  (forall h k v v', In (k, v) (ST h) -> In (k, v') (ST h) -> v = v') ->
+  (forall h a, In (h, a) tg -> a_root a = EMPTY_ROOT -> ST h = []) ->
+  (forall h k v, In (k, v) (ST h) -> k <= MAXH) ->
+  forall (c : config) (root : N) (evs : list event),
+  (forall k a, In (k, a) tg -> k <= MAXH) ->
+  1 <= c_acc c <= HSPACE ->
+  trace_sound tg c (start c fresh root) evs ->
+  sto_trace ST c (start c fresh root) evs ->
+  s_tasks (run c root evs) = [] ->
+  forall k a, In (k, a) tg ->
+    get k (d_acc (s_db (run c root evs))) = Some (a_blob a) /\
+    (a_code a = EMPTY_CODE \/ has (a_code a) (d_code (s_db (run c root evs))) = true) /\
+    (forall sk v, In (sk, v) (ST k) -> slot_get k sk (s_db (run c root evs)) = Some v).
+Proof. exact complete_all. Qed.
+Print Assumptions C47_complete_implies_equal.
+
+
+(* ---- complete_implies_equal, BOTH inclusions for accounts, storage and code.  [TC h x]: x is the target
+   code with hash h; hypothesis on the history: every blob of a bytecode response is the target code of
+   its Keccak hash (collision freedom of Keccak-256 on the codes in play).  At completion: a key has a body
+   in the flat account state iff it is a target account with that body; for every target account a slot is
+   stored under it iff it is one of its target slots (and no slot is stored under any account that is not
+   a target slot of that account); every target account's code is stored under its hash and is the target
+   code. *)
+Theorem C47_complete_implies_equal_full : forall (tg : list (N * acct)),
+  (forall k a a', In (k, a) tg -> In (k, a') tg -> a = a') ->
+  forall ST : N -> list (N * bytes),
+  (forall h k v v', In (k, v) (ST h) -> In (k, v') (ST h) -> v = v') ->
+  (forall h a, In (h, a) tg -> a_root a = EMPTY_ROOT -> ST h = []) ->
+  (forall h k v, In (k, v) (ST h) -> k <= MAXH) ->
+  forall (TC : N -> bytes -> Prop) (c : config) (root : N) (evs : list event),
+  (forall k a, In (k, a) tg -> k <= MAXH) ->
+  1 <= c_acc c <= HSPACE ->
+  (forall e h x, In e evs -> ev_code e h x -> TC h x) ->
+  trace_sound tg c (start c fresh root) evs ->
+  sto_trace ST c (start c fresh root) evs ->
+  s_tasks (run c root evs) = [] ->
+  let db := s_db (run c root evs) in
+  (forall k v, get k (d_acc db) = Some v <-> exists a, In (k, a) tg /\ a_blob a = v) /\
+  (forall k a, In (k, a) tg -> forall sk v, slot_get k sk db = Some v <-> In (sk, v) (ST k)) /\
+  (forall a sk v, slot_get a sk db = Some v -> In (sk, v) (ST a)) /\
+  (forall k a, In (k, a) tg -> a_code a <> EMPTY_CODE ->
+     exists x, get (a_code a) (d_code db) = Some x /\ TC (a_code a) x).
+Proof. exact complete_equal. Qed.
+Print Assumptions C47_complete_implies_equal_full.
+
+(* the storage hypotheses are satisfiable too: for the same concrete target, with the contract's storage
+   [ex_ST] (two slots under account 7), the same honest history satisfies [sto_trace] *)
+Example C47_nonvacuous_storage :
+  (forall h k v v', In (k, v) (ex_ST h) -> In (k, v') (ex_ST h) -> v = v') /\
+  (forall h a, In (h, a) ex_tg -> a_root a = EMPTY_ROOT -> ex_ST h = []) /\
+  (forall h k v, In (k, v) (ex_ST h) -> k <= MAXH) /\
+  sto_trace ex_ST ex_cfg (start ex_cfg fresh 1) ex_sound_events.
+Proof.
+  split; [exact ex_ST_fun|]. split; [exact ex_ST_empty|]. split; [exact ex_ST_bound|exact ex_sto_trace].
 Qed.
